@@ -438,8 +438,9 @@ func decodeRange(data []byte, oid int) string {
 	// Read upper bound if present (may need alignment)
 	if !ubInf {
 		// Align offset for upper bound
+		// bounds are aligned relative to the start of the varlena (4-byte header), not the payload
 		if elemSize > 1 {
-			offset = align(offset, elemSize)
+			offset = align(offset+4, elemSize) - 4
 		}
 		if offset+elemSize > dataEnd {
 			return "[?,?]"
